@@ -175,6 +175,11 @@ def cases(rng, tier, shard, nshards):
     from .. import boot
     mods = boot.modules()
     total = META['quick_cases'] if tier == 'quick' else META['thorough_cases']
+    # one long curve per shard in every tier (generous thresholds: the accepted member is among the first dozens)
+    lp = gen.long_spiky(rng, 2500, 4500)
+    yield {'points': lp, 'family': 'long-spiky', 'layout': 'C', 'cost': pick(rng, ['rpd', 'smape', 'rmspe']), 'distance': pick(rng, DISTANCES),
+           'order': pick(rng, ORDERS), 't': float(pick(rng, [0.02, 0.01, 0.005])), 'min_points': int(rng.integers(5, 30)),
+           'tlist': [0.02, 0.008], 'mp2': int(rng.integers(5, 25))}
     for i in range(shard_count(total, shard, nshards)):
         r = rng.random()
         if tier == 'thorough' and r < 0.03:
